@@ -278,15 +278,16 @@ example : IsExactKnn exδ (List.range 4) 1 3 (coverSelect exδ 3 1 [3, 2]) :=
 /-! ### cover tree construction: `batchCreate_wf`, `cover_tree_end_to_end`
 
 Subject: `CoverBuild.batchCreate` — the statement-by-statement model of `batch_create` / `batch_insert` / `split` /
-`dist_split` / `max_set` / `set_leaf_scale` (code as of the repairs F-COVER-ZERO e2bbcb6 and F-COVER-SCALE e30d89e) into
-the tree type the query model runs on.  The floating-point functions `get_scale` (`ceil(log d / log 1.3)`) and
-`dist_of_scale` (`pow(1.3, s)`) are parameters of the model; the theorems hold for EVERY pair of functions with
-  (H1) `0 ≤ distOfScale s` for all `s`, and
-  (H2) `topCovered`: the largest distance `maxd` from the first point is `0` or `maxd ≤ distOfScale (getScale maxd)`
-(without H2 the real `batch_create` silently drops the farthest samples at the top level; without H1 a node of
-non-coinciding points can get `max_dist = 0` and be relabelled as a leaf-scale node).  Both are evaluated on every run
-on the values the real code computes.  Of the callback only `δ x x = 0` and `0 ≤ δ x y` are used (any pseudo-metric:
-repeated samples allowed).  On every run the tree of this model is compared with the real tree. -/
+`dist_split` / `max_set` / `set_leaf_scale` (code as of the repairs F-COVER-ZERO e2bbcb6, F-COVER-SCALE e30d89e and
+F-COVER-TOP 7615484) into the tree type the query model runs on.  The floating-point functions `get_scale`
+(`ceil(log d / log 1.3)`) and `dist_of_scale` (`pow(1.3, s)`) are parameters of the model; the theorems hold for EVERY
+`getScale` and every `distOfScale` with `0 ≤ distOfScale s` (otherwise a node of non-coinciding points can get
+`max_dist = 0` and be relabelled as a leaf-scale node) — evaluated on every run on the values the real code computes.
+That the top level covers the farthest sample (`maxd ≤ distOfScale top_scale`) was a second hypothesis until it turned
+out to be false of the real functions (defect F-COVER-TOP, found through this proof: `pow(1.3, get_scale(d)) < d` for
+`d` next to a power of 1.3, the farthest samples were dropped); it now follows from the repaired code's loop.
+Of the callback only `δ x x = 0` and `0 ≤ δ x y` are used (any pseudo-metric: repeated samples allowed).
+On every run the tree of this model is compared with the real tree. -/
 
 section
 open TapkeeVerif.CoverBuild
@@ -297,41 +298,48 @@ variable {K : Type} [LinearOrder K] [AddCommGroup K] [IsOrderedAddMonoid K]
     node (first child carries the parent's point, `parent_dist` are true distances, `max_dist` bounds the distance to
     every descendant, scales increase towards the leaves); the leaf scale is at least 100. -/
 theorem batchCreate_leaves {δ : Nat → Nat → K} (hm : IsMetric δ) {getScale : K → Int} {distOfScale : Int → K}
-    (hpos : ∀ s, 0 ≤ distOfScale s) {fuel : Nat} {points : List Nat}
-    (htop : topCovered δ getScale distOfScale points = true) {t : CNode K} {ls : Nat}
+    (hpos : ∀ s, 0 ≤ distOfScale s) {fuel : Nat} {points : List Nat} {t : CNode K} {ls : Nat}
     (h : batchCreate δ getScale distOfScale fuel points = some (t, ls)) :
     wfNode δ t = true ∧ t.leaves.Perm points ∧ 100 ≤ ls :=
-  batchCreate_good hm.self hm.nonneg hpos htop h
+  batchCreate_good hm.self hm.nonneg hpos h
 
 /-- **`batchCreate_wf`** : the tree `batch_create` returns for the samples `0 .. N-1` (in any order) satisfies
     `wfTree` — the hypothesis of `cover_query_exact` / `cover_tree_exact`: every sample occurs exactly once, the first
     child carries the parent's point, `parent_dist` are true distances, `max_dist` bounds the distance to every
-    descendant, scales increase towards the leaves.  For every (pseudo-)metric, every `N`, every pair of scale
-    functions meeting H1, H2. -/
+    descendant, scales increase towards the leaves.  For every (pseudo-)metric, every `N`, every `getScale`, every
+    non-negative `distOfScale`. -/
 theorem batchCreate_wf {δ : Nat → Nat → K} (hm : IsMetric δ) {getScale : K → Int} {distOfScale : Int → K}
     (hpos : ∀ s, 0 ≤ distOfScale s) {fuel N : Nat} {points : List Nat} (hpts : points.Perm (List.range N))
-    (htop : topCovered δ getScale distOfScale points = true) {t : CNode K} {ls : Nat}
-    (h : batchCreate δ getScale distOfScale fuel points = some (t, ls)) : wfTree δ N t = true :=
-  batchCreate_wf' hm.self hm.nonneg hpos hpts htop h
+    {t : CNode K} {ls : Nat} (h : batchCreate δ getScale distOfScale fuel points = some (t, ls)) :
+    wfTree δ N t = true :=
+  batchCreate_wf' hm.self hm.nonneg hpos hpts h
 
 /-- **`cover_tree_end_to_end`** (partial correctness in the query's fuel, as `cover_tree_exact`) : construction, batch
-    query and wrapper chained — for every metric, every `N ≥ 2`, every `k < N`, every pair of scale functions meeting
-    H1, H2: if `batch_create` returns `(top, leaf_scale)` and the batch query on `top` (as query and reference tree,
-    with that `leaf_scale`) answers, then the list the wrapper selects for sample `q` is the exact k-NN list of `q`. -/
+    query and wrapper chained — for every metric, every `N ≥ 2`, every `k < N`, every `getScale`, every non-negative
+    `distOfScale`: if `batch_create` returns `(top, leaf_scale)` and the batch query on `top` (as query and reference
+    tree, with that `leaf_scale`) answers, then the list the wrapper selects for sample `q` is the exact k-NN list. -/
 theorem cover_tree_end_to_end {δ : Nat → Nat → K} (hm : IsMetric δ) {getScale : K → Int} {distOfScale : Int → K}
-    (hpos : ∀ s, 0 ≤ distOfScale s) {k N : Nat} (hk : k < N) (hN : 2 ≤ N)
-    (htop : topCovered δ getScale distOfScale (List.range N) = true) {fuel : Nat} {top : CNode K} {ls : Nat}
+    (hpos : ∀ s, 0 ≤ distOfScale s) {k N : Nat} (hk : k < N) (hN : 2 ≤ N) {fuel : Nat} {top : CNode K} {ls : Nat}
     (hb : batchCreate δ getScale distOfScale fuel (List.range N) = some (top, ls))
     {hsort : List (DN K) → List (DN K)} (hperm : ∀ l, (hsort l).Perm l) {res : List (List Nat)}
     (h : batchQuery δ hsort (k + 1) ls top = some res) {q : Nat} {cands l : List Nat} (hr : q :: cands ∈ res)
     {lt : K × Nat → K × Nat → Bool} (hlt : ∀ a b : K × Nat, lt b a = false → a.1 ≤ b.1)
     (hl : CoverOut δ lt q k cands l) : IsExactKnn δ (List.range N) k q l := by
-  have hwf := batchCreate_wf hm hpos (List.Perm.refl _) htop hb
+  have hwf := batchCreate_wf hm hpos (List.Perm.refl _) hb
   have hlen : top.leaves.length = N := by
     unfold wfTree at hwf
     simp only [Bool.and_eq_true, beq_iff_eq] at hwf
     exact hwf.1.2
   exact cover_tree_exact hm hk ls hperm hwf (children_ne_nil_of_leaves (by omega)) h hr hlt hl
+
+/-- **F-COVER-TOP, Lean-checked**: with the top scale `get_scale(max_dist)` taken as it is (the code before the
+    repair) the construction drops samples as soon as `dist_of_scale(get_scale(d)) < d` — witness: two samples at
+    distance 3 and scale functions with `distOfScale (getScale 3) = 2` (the real functions do this by rounding at
+    `d = 247.0645290734506 = nextafter(1.3^21)`, `corpus/C02/f-cover-top.case`): the tree is the single leaf 0. -/
+theorem cover_top_uncovered_drops :
+    (batchInsert (fun a b : Nat => ((if a = b then 0 else 3 : Nat) : Int)) (fun _ => 0) (fun _ => 2) 5 0 0 0
+        [⟨[3], 1⟩] [] [] 100).map (fun r => (r.node.leaves, r.pointSet.map (·.p))) = some ([0], [1]) := by
+  decide
 
 end
 
@@ -368,22 +376,21 @@ theorem ex6δ_metric : IsMetric ex6δ := by
   · rw [hfin x z, hfin x y, hfin y z]
     exact htri ⟨min x 5, hlt x⟩ ⟨min y 5, hlt y⟩ ⟨min z 5, hlt z⟩
 
-/-- the model builds the real tree (a node of two coinciding samples included), H2 holds, and the query answers -/
+/-- the model builds the real tree (a node of two coinciding samples included) and the query answers -/
 theorem ex6_build :
     CoverBuild.batchCreate ex6δ ex6Gs ex6Ds 20 (List.range 6) = some (ex6Tree, 100) ∧
-      CoverBuild.topCovered ex6δ ex6Gs ex6Ds (List.range 6) = true ∧
       batchQuery ex6δ id 2 100 ex6Tree = some [[5, 5, 4, 3], [4, 4, 3], [3, 4, 3], [2, 1, 2], [1, 1, 2], [0, 0, 1]] :=
-  ⟨by rfl, by decide, by decide +kernel⟩
+  ⟨by rfl, by decide +kernel⟩
 
 /-- hence the tree is well formed (by the theorem, not by evaluation) … -/
 example : wfTree ex6δ 6 ex6Tree = true :=
-  batchCreate_wf ex6δ_metric (fun _ => Int.natCast_nonneg _) (List.Perm.refl _) ex6_build.2.1 ex6_build.1
+  batchCreate_wf ex6δ_metric (fun _ => Int.natCast_nonneg _) (List.Perm.refl _) ex6_build.1
 
 /-- … and, e.g., the list selected for sample 3 (x = 9, coinciding with sample 4) from its candidates `[4, 3]` is its
     exact 1-NN list -/
 example : IsExactKnn ex6δ (List.range 6) 1 3 (coverSelect ex6δ 3 1 [4, 3]) :=
-  cover_tree_end_to_end ex6δ_metric (fun _ => Int.natCast_nonneg _) (by decide) (by decide) ex6_build.2.1 ex6_build.1
-    (fun l => List.Perm.refl l) ex6_build.2.2 (by decide) (coverSelect_admissible ex6δ 3 1 [4, 3]).2
+  cover_tree_end_to_end ex6δ_metric (fun _ => Int.natCast_nonneg _) (by decide) (by decide) ex6_build.1
+    (fun l => List.Perm.refl l) ex6_build.2 (by decide) (coverSelect_admissible ex6δ 3 1 [4, 3]).2
     (coverSelect_admissible ex6δ 3 1 [4, 3]).1
 
 /-- **F-COVER-COPY, Lean-checked**: with `query_chi->max_dist` counted once (the code before the repair) the
